@@ -1,4 +1,6 @@
 SPECIFICATION Spec
 CONSTANTS Dim = 2  MaxN = 3  MaxV = 2
 INVARIANT MultiObjective
+INVARIANT MirrorWilcoxon
+INVARIANT WilcoxonStatisticsPartition
 CHECK_DEADLOCK FALSE
